@@ -42,6 +42,9 @@ UNITS = {
     "streamable_derived_0": {"generator": {"crates": ("chia-protocol",), "part": 0, "parts": 3, "out_name": "streamable_derived_0"}, "rlimit": 60},
     "streamable_derived_1": {"generator": {"crates": ("chia-protocol",), "part": 1, "parts": 3, "out_name": "streamable_derived_1"}, "rlimit": 60},
     "streamable_derived_2": {"generator": {"crates": ("chia-protocol",), "part": 2, "parts": 3, "out_name": "streamable_derived_2"}, "rlimit": 60},
+    "streamable_complete_0": {"generator": {"crates": ("chia-protocol",), "part": 0, "parts": 3, "out_name": "streamable_complete_0", "complete": True}, "rlimit": 120},
+    "streamable_complete_1": {"generator": {"crates": ("chia-protocol",), "part": 1, "parts": 3, "out_name": "streamable_complete_1", "complete": True}, "rlimit": 120},
+    "streamable_complete_2": {"generator": {"crates": ("chia-protocol",), "part": 2, "parts": 3, "out_name": "streamable_complete_2", "complete": True}, "rlimit": 120},
     "streamable_handwritten": {"generator": {"crates": ("chia-protocol",), "part": "hw", "out_name": "streamable_handwritten"}, "rlimit": 60,
                                "known_clauses": ("r matches Ok(v) ==> v.hashable(),",)},
 }
@@ -171,16 +174,17 @@ _STREAM_ASSUME = [
 ]
 PROPS["C13"] = {
     "level": "proof",
-    "technique": "Verus trait-level contract on the real Streamable trait and impls (extracted verbatim; macro arms expanded by token substitution): stream/update_digest/parse all against one accumulator-style encoding spec enc_onto",
+    "technique": "Verus trait-level contract on the real Streamable trait and impls (extracted verbatim; macro arms expanded by token substitution): stream/update_digest/parse all against one accumulator-style encoding spec enc_onto; decoder completeness (second trait-level contract, quantified over every value whose encoding starts at the cursor) for core impls and derived structs; native round-trip evaluation of every declared type",
     "level_text": "Deductive proof, modular over the trait: for every impl under contract, stream appends exactly enc, update_digest absorbs exactly enc (so hash == sha256(enc)), and whenever parse (trusted or not: same contract) returns a value the consumed bytes are exactly that value's encoding (canonicity); from_bytes accepts only inputs that are entirely the encoding.",
-    "level_note": "Covered impls: 10 integer primitives, bool, (), Option<T>, tuples 2-4, Vec<T>, Bytes, BytesImpl<N>, trait default methods, all 112 derive(Streamable) structs of chia-protocol (from rustc's expansion, spec generated from the declarations) and the hand-written codecs (FullBlock, UnfinishedBlock, ProofOfSpace incl. the v2 quality-string hash, RewardChainBlock, SubEpochSummary, SubEpochData with the shared-prefix optional helper, Program, String). Opaque with assumed contract: [T;N], BLS elements, derived enums. The decode(encode(x)) == x direction is argued by composition (prefix-free encodings), not machine-checked as a contract, and decided on ground values of every declared type (task roundtrip_ground).",
+    "level_note": "Covered impls: 10 integer primitives, bool, (), Option<T>, tuples 2-4, Vec<T>, Bytes, BytesImpl<N>, trait default methods, all 112 derive(Streamable) structs of chia-protocol (from rustc's expansion, spec generated from the declarations) and the hand-written codecs (FullBlock, UnfinishedBlock, ProofOfSpace incl. the v2 quality-string hash, RewardChainBlock, SubEpochSummary, SubEpochData with the shared-prefix optional helper, Program, String). Opaque with assumed contract: [T;N], BLS elements, derived enums. The decode(encode(x)) direction is proved as decoder completeness (units streamable_complete, streamable_complete_0..2: wherever the encoding of a well-formed value starts at the cursor, parse - trusted or not - succeeds and returns a value with that very encoding; from_bytes of an encoding succeeds) for the core impls and all derived structs, and decided on ground values of every declared type (task roundtrip_ground).",
     # the `hashable` clause of parse (hashing a decoded value is defined) is C14's statement, decided there
     "components": [V("streamable_core")] + [V(u, exclude_clause=r"v\.hashable\(\)") for u in
                    ("streamable_derived_0", "streamable_derived_1", "streamable_derived_2", "streamable_handwritten")]
+                  + [V("streamable_complete"), V("streamable_complete_0"), V("streamable_complete_1"), V("streamable_complete_2")]
                   + [N("native_roundtrip_ground", "roundtrip_ground", thorough_task="roundtrip_ground:thorough")],
     "assumptions": _STREAM_ASSUME,
     "not_covered": [
-        "round-trip direction decode(encode(x)) == x as a contract (needs prefix-freeness lemmas per type): decided on ground values only - task roundtrip_ground draws values of every #[streamable] type the chia-protocol sources declare (list rebuilt from the sources on every run) and of the core impls with the crate's own Arbitrary impls, plus lists around the 2 MiB pre-allocation cap, and demands from_bytes(to_bytes(x)) == x for both decoders, identical re-encoding, hash == sha256(encoding) and rejection of one extra / one missing byte",
+        "round-trip direction decode(encode(x)) == x: proved up to the encoding (from_bytes / from_bytes_unchecked of the encoding of a well-formed value succeed and return a value with that very encoding; parse succeeds wherever such an encoding starts) for the core impls (unit streamable_complete) and every derive(Streamable) struct of chia-protocol (units streamable_complete_0..2, field-by-field prefix chain generated from the declarations); that equal encodings mean equal values (injectivity of the encoding) is not machine-checked, and the seven hand-written codecs, String, BLS elements and derived enums are assumed there. Ground side for all of them - task roundtrip_ground draws values of every #[streamable] type the chia-protocol sources declare (list rebuilt from the sources on every run) and of the core impls with the crate's own Arbitrary impls, plus lists around the 2 MiB pre-allocation cap, and demands from_bytes(to_bytes(x)) == x for both decoders, identical re-encoding, hash == sha256(encoding) and rejection of one extra / one missing byte",
         "[T;N], PublicKey/Signature impls and derived enums (declared opaque with an assumed Streamable contract); String and Program are proved in unit streamable_handwritten and assumed, with that contract, where they occur as fields elsewhere",
         "derive(Streamable) impls outside chia-protocol (chia-consensus owned conditions, chia-datalayer)",
     ],
